@@ -16,6 +16,7 @@ RULES = ("R1 inventory G = mutable statics read in solver-reachable code; R2 mak
          "renaming, parse_query's Ok goes through make_query; R3 kb/rule/goal/term Freeze, SolutionNode.kb is a shared "
          "reference, no solver-reachable `&mut KnowledgeBase`; R4 no static holds node state; R5 = C23/R1: every timer started by solve/solve_all is cancelled on every path (a "
          "leaked timer would set the stop flag during a later query)")
+WITNESSES = {"W2SolverHoldsSharedKb": "SolutionNode.kb is a shared reference: running a query cannot change the knowledge base a later query sees (E0596)"}
 TRUSTED = ["rustc nightly MIR construction", "Freeze computed by rustc (is_freeze)"]
 
 
